@@ -11,12 +11,12 @@ git -C /repo worktree add -q --detach $WT HEAD || exit 2
 res=""
 cd $WT
 # demo without the change
-if [ -f $OUT/demo.sh ]; then sh $OUT/demo.sh >/dev/null 2>&1; r0=$?; else cp $OUT/demo_test.go . && go test -vet=off -count=1 -run 'Demo|Seed' . >/dev/null 2>&1; r0=$?; fi
+if [ -f $OUT/demo.sh ]; then sh $OUT/demo.sh >/dev/null 2>&1; r0=$?; else cp $OUT/demo_test.go . && go test -vet=off -count=1 -run 'Demo|Seed|C10|Determin|Repeat' . >/dev/null 2>&1; r0=$?; fi
 git apply $OUT/patch.diff || { echo "$P: patch does not apply"; git -C /repo worktree remove --force $WT; exit 1; }
 go build ./... || res="$res build-fails"
 rm -f demo_test.go
 go test -vet=off -count=1 ./... >/tmp/vseed-$P.log 2>&1 || res="$res suite-fails"
-if [ -f $OUT/demo.sh ]; then sh $OUT/demo.sh >/dev/null 2>&1; r1=$?; else cp $OUT/demo_test.go . && go test -vet=off -count=1 -run 'Demo|Seed' . >/dev/null 2>&1; r1=$?; fi
+if [ -f $OUT/demo.sh ]; then sh $OUT/demo.sh >/dev/null 2>&1; r1=$?; else cp $OUT/demo_test.go . && go test -vet=off -count=1 -run 'Demo|Seed|C10|Determin|Repeat' . >/dev/null 2>&1; r1=$?; fi
 [ "$r0" = "0" ] || res="$res demo-fails-without-change($r0)"
 [ "$r1" != "0" ] || res="$res demo-passes-with-change"
 cd /
